@@ -219,9 +219,6 @@ func (e *Engine) applyCond(s *fstate, r AV, v ssa.Value, cond ssa.Value, branch 
 			return r
 		}
 		cs := e.outcomeConstraints(sc, ridx, wantOnTrue == branch)
-		if cs == nil {
-			return r
-		}
 		for i, a := range call.Call.Args {
 			if i < len(cs) && isIntType(a.Type()) && !cs[i].IsBottom() && e.sameValue(s, v, a, c, b) {
 				m := meetAV(r, cs[i])
@@ -230,7 +227,19 @@ func (e *Engine) applyCond(s *fstate, r AV, v ssa.Value, cond ssa.Value, branch 
 				}
 				m.Taint = r.Taint
 				m.Raw = r.Raw
+				m.Exact = m.Exact && cs[i].Exact
+				if !cs[i].SanLo && !cs[i].SanHi && e.opaqueParam(sc, i) {
+					// the checker looks at the value in a way that is not followed (copied into an array
+					// it loops over, handed to further code): some test was applied, which one is unknown
+					m.SanLo, m.SanHi, m.Exact = true, true, false
+				}
 				r = m
+				continue
+			}
+			// the value travels inside a struct built for the checker: args := T{..., width, ...};
+			// if err := args.validate(); err != nil { ... }
+			if e.carriedInStruct(s, v, a, c, b) {
+				r.SanLo, r.SanHi, r.Exact = true, true, false
 			}
 		}
 		return r
@@ -326,7 +335,35 @@ func markSan(r AV, lo, hi bool, other AV) AV {
 }
 
 // sameValue: do v and w denote the same runtime value at the use in block b (guard edge enters c)?
+// stripWiden removes value-preserving integer conversions (uint8 -> int, ...): a test of int(x) is a
+// test of x.
+func (e *Engine) stripWiden(v ssa.Value) ssa.Value {
+	for {
+		switch x := v.(type) {
+		case *ssa.ChangeType:
+			if isIntType(x.X.Type()) && isIntType(x.Type()) {
+				v = x.X
+				continue
+			}
+		case *ssa.Convert:
+			if isIntType(x.X.Type()) && isIntType(x.Type()) {
+				lo1, hi1, _, _, ok1 := e.typeRange(x.X.Type())
+				lo2, hi2, _, _, ok2 := e.typeRange(x.Type())
+				if ok1 && ok2 && lo2 <= lo1 && hi1 <= hi2 {
+					v = x.X
+					continue
+				}
+			}
+		}
+		return v
+	}
+}
+
 func (e *Engine) sameValue(s *fstate, v, w ssa.Value, c, b *ssa.BasicBlock) bool {
+	if v == w {
+		return true
+	}
+	v, w = e.stripWiden(v), e.stripWiden(w)
 	if v == w {
 		return true
 	}
@@ -709,6 +746,60 @@ func (e *Engine) outcomeConstraints(fn *ssa.Function, ridx int, want bool) []AV 
 	}
 	e.outcomeMemo[k] = out
 	return out
+}
+
+// opaqueParam: integer parameter i of fn is stored to memory (an array / struct the function then
+// works on) or handed to further in-scope code: fn may test it in ways the engine does not follow.
+func (e *Engine) opaqueParam(fn *ssa.Function, i int) bool {
+	if i >= len(fn.Params) || fn.Params[i].Referrers() == nil {
+		return false
+	}
+	p := fn.Params[i]
+	for _, r := range *p.Referrers() {
+		switch x := r.(type) {
+		case *ssa.Store:
+			if x.Val == ssa.Value(p) {
+				return true
+			}
+		case *ssa.Call:
+			if sc := x.Call.StaticCallee(); sc != nil && sc.Blocks != nil && sc.Pkg != nil && fn.Pkg != nil {
+				pk := sc.Pkg.Pkg.Path()
+				if pk != "fmt" && pk != "errors" {
+					return true
+				}
+			}
+		}
+	}
+	return false
+}
+
+// carriedInStruct: call argument a is (a pointer to / the value of) a local struct into one of
+// whose fields the value v was stored before the call.
+func (e *Engine) carriedInStruct(s *fstate, v, a ssa.Value, c, b *ssa.BasicBlock) bool {
+	var al *ssa.Alloc
+	switch x := a.(type) {
+	case *ssa.Alloc:
+		al = x
+	case *ssa.UnOp:
+		if x.Op == token.MUL {
+			al, _ = x.X.(*ssa.Alloc)
+		}
+	}
+	if al == nil || al.Referrers() == nil || namedStruct(al.Type()) == nil {
+		return false
+	}
+	for _, r := range *al.Referrers() {
+		fa, ok := r.(*ssa.FieldAddr)
+		if !ok || fa.Referrers() == nil {
+			continue
+		}
+		for _, u := range *fa.Referrers() {
+			if st, ok := u.(*ssa.Store); ok && st.Addr == ssa.Value(fa) && isIntType(st.Val.Type()) && e.sameValue(s, v, st.Val, c, b) {
+				return true
+			}
+		}
+	}
+	return false
 }
 
 // outcomeOfCond: is cond a test of the outcome of a static call — a bool result used directly,
